@@ -388,6 +388,37 @@ func checkSelectorAction(r *Run, ga *GA, sn *peg.Node, pfx string) {
 		if !usesParts {
 			probs = append(probs, "the parts unescaped by pointerstructure.Parse do not replace the selector's Path (escapes ~0/~1 stay undecoded)")
 		}
+		// unconditionally: the parse and the replacement are top-level statements of the action and the only error-free
+		// return is the action's last statement (no path around the unescaping)
+		topParse, topParts := false, false
+		for _, st := range fd.Body.List {
+			if as, ok := st.(*ast.AssignStmt); ok && len(as.Rhs) == 1 {
+				if ast.Unparen(as.Rhs[0]) == ast.Expr(parseCall) {
+					topParse = true
+				}
+				if len(as.Lhs) == 1 {
+					if l, ok := as.Lhs[0].(*ast.SelectorExpr); ok && l.Sel.Name == "Path" {
+						if rsel, ok := ast.Unparen(as.Rhs[0]).(*ast.SelectorExpr); ok && rsel.Sel.Name == "Parts" {
+							topParts = true
+						}
+					}
+				}
+			}
+		}
+		okReturns := 0
+		var lastOK ast.Stmt
+		ast.Inspect(fd.Body, func(x ast.Node) bool {
+			if rs, ok := x.(*ast.ReturnStmt); ok && len(rs.Results) == 2 {
+				if id, ok := ast.Unparen(rs.Results[1]).(*ast.Ident); ok && id.Name == "nil" {
+					okReturns++
+					lastOK = rs
+				}
+			}
+			return true
+		})
+		if !topParse || !topParts || okReturns != 1 || len(fd.Body.List) == 0 || fd.Body.List[len(fd.Body.List)-1] != lastOK {
+			probs = append(probs, "the JSON-Pointer selector can be returned on a path that does not go through pointerstructure.Parse and the replacement of Path by its Parts")
+		}
 		if !returnsErr {
 			probs = append(probs, "an invalid JSON pointer is not reported as an error")
 		}
@@ -603,6 +634,9 @@ func scanDatumInspection(prog *Program, fns []*ssa.Function, cmp map[*ssa.Functi
 			for _, ins := range b.Instrs {
 				switch x := ins.(type) {
 				case *ssa.TypeAssert:
+					if ifc, ok := x.AssertedType.Underlying().(*types.Interface); ok && ifc.NumMethods() > 0 && isEmptyIface(x.X.Type()) {
+						out = append(out, fmt.Sprintf("%s: a value is asserted to interface %s: its methods are foreign code that sees every field of the datum", fn.Name(), x.AssertedType))
+					}
 					if root, _ := rootOf(x.X); root != nil {
 						if p, ok := root.(*ssa.Parameter); ok && isEmptyIface(p.Type()) && isEmptyIface(x.X.Type()) {
 							// asserting a scalar-like type (json.Number, string, …) looks at no field; containers and pointers do
@@ -695,7 +729,7 @@ func checkNoStructBypass(r *Run, prog *Program, a *Anchors, pfx string) {
 		ch := scanStructBypass(ctl)
 		r.Check(pfx+".positive-control", "c08pos", "/verif/checker/testdata/c08pos/pos.go", len(ch) >= 6, fmt.Sprintf("the struct-bypass rule matched only %d of the ≥6 forbidden constructs of its positive-control package: %v", len(ch), ch))
 		ci := scanDatumInspection(prog, ctl, nil)
-		r.Check(pfx+".positive-control", "c08pos:inspection", "/verif/checker/testdata/c08pos/pos.go", len(ci) >= 2, fmt.Sprintf("the datum-inspection rule matched only %d of the ≥2 constructs of its positive-control package: %v", len(ci), ci))
+		r.Check(pfx+".positive-control", "c08pos:inspection", "/verif/checker/testdata/c08pos/pos.go", len(ci) >= 3, fmt.Sprintf("the datum-inspection rule matched only %d of the ≥3 constructs of its positive-control package: %v", len(ci), ci))
 	}
 	// single gateway into pointerstructure
 	allowed := map[string]bool{"Get": true, "String": true, "Parse": true}
